@@ -1,4 +1,5 @@
 import PharmpyProofs.C05.Lemmas
+import PharmpyModel.Core.Expr
 /-
   C05 — Compartmental system graph and its differential equations always agree.
 
@@ -205,6 +206,40 @@ theorem canonical_rhs_dropping_key_witness :
 
 end
 
+/-! ### substitution commutes with forming the equations -/
+
+section
+variable {R R' : Type} [CommRing R] [CommRing R'] {α : Type}
+
+/-- `M_σ·A_σ + u_σ = σ(M·A + u)`: forming the right-hand sides commutes with every ring homomorphism `σ` applied to
+    rates, amounts and inputs (a substitution of symbols / amount functions by expressions, read in any
+    commutative ring, is one); together with `subs_homomorphism` the equations of `cs.subs(σ)` are `σ` of the
+    equations of `cs`. -/
+theorem odeRhs_hom (h : R →+* R') (nodes : List α) (flow : α → α → R) (out amount input : α → R) :
+    odeRhs nodes (fun x y => h (flow x y)) (fun x => h (out x)) (fun x => h (amount x)) (fun x => h (input x))
+      = (odeRhs nodes flow out amount input).map h := by
+  rw [matrix_is_rhs, matrix_is_rhs, List.map_map]
+  apply List.map_congr_left
+  intro c _
+  simp only [Function.comp_def, specRhs, map_sub, map_add, map_mul, map_list_sum', List.map_map]
+end
+
+/-- substitution lemma for the wire expression language (atoms are symbols AND applied functions such as
+    `A_CENTRAL(t)`): evaluating a substituted expression = evaluating the original in the substituted
+    environment, for every interpretation of the operations -/
+theorem expr_subst_semantics {β : Type} (I : Pharmpy.Interp β) (ρ : Pharmpy.Env β) (σ : Pharmpy.Sym → Option Pharmpy.Expr)
+    (e : Pharmpy.Expr) :
+    Pharmpy.Expr.eval I ρ (Pharmpy.Expr.subst σ e) =
+      Pharmpy.Expr.eval I (fun x => match σ x with | some t => Pharmpy.Expr.eval I ρ t | none => ρ x) e := by
+  induction e with
+  | lit n => simp [Pharmpy.Expr.subst, Pharmpy.Expr.eval]
+  | sym s =>
+    simp only [Pharmpy.Expr.subst, Pharmpy.Expr.eval]
+    cases h : σ s <;> simp [Pharmpy.Expr.eval]
+  | f1 f a ih => simp [Pharmpy.Expr.subst, Pharmpy.Expr.eval, ih]
+  | f2 f a b iha ihb => simp [Pharmpy.Expr.subst, Pharmpy.Expr.eval, iha, ihb]
+  | f3 f a b c iha ihb ihc => simp [Pharmpy.Expr.subst, Pharmpy.Expr.eval, iha, ihb, ihc]
+
 /-! ### the equations of every buildable system -/
 
 section
@@ -368,6 +403,66 @@ theorem subs_spec (g : CGraph ε) (h : g.WF) (rate : ε → ε) (f : Node ε →
     have := s3 x y (hn0 ▸ hx) (hn0 ▸ hy)
     simp only [hmem] at this
     rw [this, getFlow_mapRates]
+
+/-- `subs` is a homomorphism on the graph: for EVERY map `σ` on the expression language (symbols, amount
+    functions and compound subexpressions are all just what `σ` does to an expression) applied to every rate and
+    every compartment field, the flow between the substituted endpoints is `σ` of the original flow, no flow
+    appears or disappears, the nodes are exactly the substituted nodes, and the amount of a substituted
+    compartment is `σ` of its amount (by definition of `Comp.mapExpr`). -/
+theorem subs_homomorphism (g : CGraph ε) (h : g.WF) (σ : ε → ε)
+    (hfresh : ∀ n ∈ comps g, Node.mapExpr σ n ≠ n → Node.mapExpr σ n ∉ g.nodes)
+    (hinj : (((comps g).filter (fun n => decide (Node.mapExpr σ n ≠ n))).map (Node.mapExpr σ)).Nodup) :
+    ∃ g', subsSigma g σ = .ok g' ∧ g'.WF
+      ∧ (∀ n, n ∈ g'.nodes ↔ ∃ m ∈ g.nodes, n = Node.mapExpr σ m)
+      ∧ ∀ x y, x ∈ g.nodes → y ∈ g.nodes →
+          g'.getFlow (Node.mapExpr σ x) (Node.mapExpr σ y) = (g.getFlow x y).map σ := by
+  obtain ⟨g', h1, h2, h3, h4⟩ := subs_spec g h σ (Node.mapExpr σ) hfresh hinj
+  generalize hch : (comps g).filter (fun n => decide (Node.mapExpr σ n ≠ n)) = changed at *
+  have hmemch : ∀ n, n ∈ changed ↔ n ∈ comps g ∧ Node.mapExpr σ n ≠ n := by
+    intro n; rw [← hch, List.mem_filter]; simp
+  -- outside `changed` the node map is the identity (on nodes of the graph)
+  have hid : ∀ n, n ∈ g.nodes → n ∉ changed → Node.mapExpr σ n = n := by
+    intro n hn hnc
+    cases n with
+    | output => rfl
+    | comp c =>
+      by_contra hne
+      exact hnc ((hmemch _).mpr ⟨by unfold comps; rw [List.mem_filter]; exact ⟨hn, rfl⟩, hne⟩)
+  have hren : ∀ n, n ∈ g.nodes → (if n ∈ changed then Node.mapExpr σ n else n) = Node.mapExpr σ n := by
+    intro n hn
+    by_cases hc : n ∈ changed
+    · simp [hc]
+    · simp [hc, hid n hn hc]
+  have hchnodes : ∀ n, n ∈ changed → n ∈ g.nodes := by
+    intro n hn; have := ((hmemch n).mp hn).1; unfold comps at this; exact (List.mem_filter.mp this).1
+  refine ⟨g', h1, h2, ?_, ?_⟩
+  · intro n
+    rw [h3, List.mem_append, List.mem_filter, List.mem_map]
+    constructor
+    · rintro (⟨hn, hnc⟩ | ⟨m, hm, rfl⟩)
+      · have hnc' : n ∉ changed := by simpa using hnc
+        exact ⟨n, hn, (hid n hn hnc').symm⟩
+      · have hmc : m ∈ changed := by
+          split at hm
+          · exact hm
+          · exact List.mem_reverse.mp hm
+        exact ⟨m, hchnodes m hmc, rfl⟩
+    · rintro ⟨m, hm, rfl⟩
+      by_cases hc : m ∈ changed
+      · right
+        refine ⟨m, ?_, rfl⟩
+        split
+        · exact hc
+        · exact List.mem_reverse.mpr hc
+      · left
+        rw [hid m hm hc]
+        exact ⟨hm, by simpa using hc⟩
+  · intro x y hx hy
+    have := h4 x y hx hy
+    rw [hren x hx, hren y hy] at this
+    exact this
+
+example (σ : ε → ε) (c : Comp ε) : (c.mapExpr σ).amount = σ c.amount ∧ (c.mapExpr σ).input = σ c.input := ⟨rfl, rfl⟩
 
 /-- Relabelling one compartment by a value not yet in the graph — what `set_dose`, `add_dose`,
     `remove_dose`, `set_lag_time`, `set_bioavailability`, `set_input` do (each is
